@@ -3,12 +3,15 @@
    Proved: every accessor is a function of the erasure; errors of kinds with exact
    decoders keep every annotation over one (hence any number of) knowing hop(s),
    whatever the strings; every annotation layer is rebuilt over ANY cause; for
-   every error nothing changes from the second hop on.  Not proved: the printed
-   stack codec (reportable frames of stack layers across the first hop) -- decided
-   on every run by the correspondence stream (frames, one-line source) and the
-   implementation-side relation. *)
+   every error nothing changes from the second hop on.  Proofs/StackFacts.v: the
+   printed-stack codec -- the frames a stack layer (the library's, pkg/errors') reports
+   after a hop to ANY process are the frames it reported before (C11_stack_frames),
+   they are exactly the captured frames (C11_stack_codec: parse (print st) = st, for
+   frames whose names have no newline; each condition shown necessary by a witness),
+   and the one-line source is kept (C11_source). *)
 From Errv Require Import Base.Str Model.Err Model.Sem Model.Details Model.Marks Model.Codec Model.Access
-     Proofs.CodecFacts Proofs.RoundTrip Proofs.EraseDef Proofs.EraseFacts Proofs.HopIdem Proofs.ExactHop.
+     Proofs.CodecFacts Proofs.RoundTrip Proofs.EraseDef Proofs.EraseFacts Proofs.HopIdem Proofs.ExactHop
+     Model.Report Proofs.StackFacts.
 
 Theorem C11_exact_hop : forall e n,
   exact_tree e = true ->
@@ -87,6 +90,39 @@ Theorem C11_unknowing_hops : forall p, knows_nothing p -> forall q x n m,
   decode q (encode (fst (decode p x n))) m = decode q x m.
 Proof. intros p Hp q x n m Hx. now rewrite (reencode_exact p Hp x Hx n). Qed.
 Print Assumptions C11_unknowing_hops.
+
+(* reportable stack frames of the stack-carrying layers across a hop to any process *)
+Theorem C11_stack_frames : forall p i st c m n,
+  st <> [] ->
+  get_reportable_stack (fst (hop p (Wrap i (WStack st) c) n)) = get_reportable_stack (Wrap i (WStack st) c) /\
+  get_reportable_stack (fst (hop p (Wrap i (WPkgStack st) c) n)) = get_reportable_stack (Wrap i (WPkgStack st) c) /\
+  get_reportable_stack (fst (hop p (Leaf i (LPkgFund m st)) n)) = get_reportable_stack (Leaf i (LPkgFund m st)).
+Proof.
+  intros p i st c m n H. repeat split;
+    [now apply stack_hop_withstack_any|now apply stack_hop_pkgstack_any|now apply stack_hop_pkgfund_any].
+Qed.
+Print Assumptions C11_stack_frames.
+
+(* the printed form is a codec: what the receiver parses is what was captured *)
+Theorem C11_stack_codec : forall st,
+  forallb frame_ok st = true -> st <> [] ->
+  parse_printed_stack (print_stack st) = List.map frame_of (List.rev st).
+Proof. exact parse_print_stack. Qed.
+Print Assumptions C11_stack_codec.
+
+Theorem C11_stack_frames_received : forall p i st c n,
+  forallb frame_ok st = true -> st <> [] ->
+  get_reportable_stack (fst (hop p (Wrap i (WStack st) c) n)) = Some (List.map frame_of (List.rev st)).
+Proof. exact stack_hop_frames. Qed.
+Print Assumptions C11_stack_frames_received.
+
+(* the one-line source of a stack layer survives the hop when it does for the cause *)
+Theorem C11_source : forall p i f r c n,
+  frame_ok f = true ->
+  get_one_line_source (fst (hop p c n)) = get_one_line_source c ->
+  get_one_line_source (fst (hop p (Wrap i (WStack (f :: r)) c) n)) = get_one_line_source (Wrap i (WStack (f :: r)) c).
+Proof. exact source_hop_withstack. Qed.
+Print Assumptions C11_source.
 
 Example C11_example :
   let e := Wrap 103%positive (WHint (lit "h")) (Wrap 102%positive (WDomain (lit "error domain: d"))
